@@ -65,6 +65,11 @@ def templates(tier="quick"):
     st = [Stmt("q%d" % i, ex=["s"] if i % 2 else ["t"], prints=P(k, "q%d" % i)) for i, k in enumerate(kinds[4:])]
     st.append(Stmt("link", ex=[s.id for s in st], prints=P("nonl", "link")))
     add("parallel_b", Variant("v0", st), faults=[{"q0": {"code": 9}}, {"q4": {"code": 4}}])
+    # statements with deps whose failing tool leaves an unparsable depfile behind (exit code 3, output)
+    st = [Stmt("o1", ex=["s"], hidden=["h"], deps="gcc", prints=P("line", "o1")), Stmt("o2", ex=["t"], hidden=["h"], depfile=True, prints=P("multi", "o2")),
+          Stmt("link", ex=["o1", "o2"], prints=P("line", "link"))]
+    add("deps_failing_half_way", Variant("v0", st), js=(1, 2), faults=[{"o1": {"code": 3, "baddep": True}}, {"o2": {"code": 4, "baddep": True}},
+                                                                        {"o1": {"code": 1, "baddep": True}, "o2": {"code": 7}}])
     # restat pruning: totals shrink
     st = [Stmt("r", ex=["s"], restat=True, prints=P("line", "r")), Stmt("a", ex=["r"], prints=P("line", "a")),
           Stmt("b", ex=["a"], prints=P("multi", "b")), Stmt("x", ex=["t"], prints=P("line", "x"))]
